@@ -1,6 +1,6 @@
 import Mouette.Lemmas.SubdivSource4
 import Mouette.Lemmas.SubdivComponents5
-import Mouette.Lemmas.SubdivManifold5
+import Mouette.Lemmas.SubdivBorder2
 import Mouette.Lemmas.SubdivSource6
 import Mouette.Props.C13
 /-!
@@ -322,6 +322,74 @@ theorem manifold_preserved_sub6_partial (m m' : Raw) (h3 : ∀ f ∈ m.faces, f.
     obtain ⟨_, _, _, _, h4⟩ := Mouette.Props.C13.quads3_counts m m1 h1
     exact ⟨m1, rfl, manifold_preserved_quads3 m m1 h3 h1 hes ho, triangulate_quads_oriented_iff m1 m' h4 h⟩
 
+/-- **1→6 at full strength** (round 7): on a triangle mesh whose faces are consistently oriented and share at most one edge
+pairwise, `subdivide_triangles_6(1)` yields a consistently oriented mesh (every directed side in at most one face), and a
+directed side of the result has no opposite iff it is one of the two halves (u → m_uv), (m_uv → v) of a directed side
+(u → v) of the input that has no opposite: the border sides double, spokes and diagonals are interior -/
+theorem manifold_preserved_sub6 (m m' : Raw) (h3 : ∀ f ∈ m.faces, f.length = 3) (hes : EdgesSorted m)
+    (ho : OrientedSides m) (hS : SharesAtMostOne m) (h : sub6 m 1 = .ok m') :
+    OrientedSides m' ∧ ∀ x ∈ dirSides m', ((x.2, x.1) ∉ dirSides m' ↔
+      ∃ u v mu, (u, v) ∈ dirSides m ∧ (v, u) ∉ dirSides m ∧
+        halfLookup m.edges m.verts.length (keyify u v) = some mu ∧ (x = (u, mu) ∨ x = (mu, v))) := by
+  obtain ⟨m1, h1, _, hiff⟩ := manifold_preserved_sub6_partial m m' h3 hes ho h
+  have hc := quads3_tri m m1 h3 h1
+  have hnd := q3_sides_diags_nodup m m1 hc hes ho hS
+  refine ⟨hiff.mpr hnd, ?_⟩
+  intro x hx
+  have h4 : ∀ f ∈ m1.faces, f.length = 4 := (Mouette.Props.C13.quads3_counts m m1 h1).choose_spec.2.2.2
+  have ht : triangulate m1 = .ok m' := by
+    simp only [sub6, iterM_one, bind, Except.bind, h1] at h; exact h
+  have hperm := (manifold_quads_triangulate_iff m1 m' h4 ht).1
+  have hsw : ∀ y ∈ (List.range m1.faces.length).flatMap (fun i => diagOf m1.faces[i]?),
+      (y.2, y.1) ∈ (List.range m1.faces.length).flatMap (fun i => diagOf m1.faces[i]?) := by
+    intro y hy
+    obtain ⟨i, hi, hyi⟩ := List.mem_flatMap.mp hy
+    exact List.mem_flatMap.mpr ⟨i, hi, diagOf_swap _ y hyi⟩
+  rw [cuts_border _ _ _ hperm hnd hsw x hx]
+  constructor
+  · rintro ⟨hx1, hno⟩
+    exact (q3_border m m1 hc hes x hx1).mp hno
+  · intro hb
+    obtain ⟨u, v, mu, huv, hnv, hl, hxe⟩ := hb
+    have hx1 : x ∈ dirSides m1 := by
+      obtain ⟨f, hf, hfuv⟩ := List.mem_flatMap.mp huv
+      obtain ⟨i, hi⟩ := mem_number_of_mem m.faces (m.verts.length + m.edges.length) f hf
+      exact (mem_dirSides_q3 m m1 hc hes x).mpr ⟨(i, f), hi, Or.inl ⟨u, v, mu, hfuv, hl, hxe⟩⟩
+    exact ⟨hx1, (q3_border m m1 hc hes x hx1).mpr ⟨u, v, mu, huv, hnv, hl, hxe⟩⟩
+
+/-- **border loops through 1→3 quads and 1→6** (round 7).  For both refinements of a triangle mesh (1→6 under the hypotheses
+of `manifold_preserved_sub6`): every border side of the result is a half of exactly one border side of the input; the two
+halves of a border side follow each other and the second half is followed by the first half of the successor side, and
+there is no other succession; walks along the border lift (two steps per step) and project.  Hence "lies on the same border
+loop" is the same relation on both sides: the border loops are in bijection, a loop of k sides becoming one of 2k. -/
+theorem border_loops_preserved_quads3_sub6 (m m' : Raw) (h3 : ∀ f ∈ m.faces, f.length = 3) (hes : EdgesSorted m)
+    (hcase : quads3 m = .ok m' ∨ (OrientedSides m ∧ SharesAtMostOne m ∧ sub6 m 1 = .ok m')) :
+    (∀ x, IsBorder m' x ↔ ∃ s, HalfOfBorder m x s) ∧
+    (∀ x s s', HalfOfBorder m x s → HalfOfBorder m x s' → s = s') ∧
+    (∀ x y, IsSucc m' x y →
+      (∃ u v mu, IsBorder m (u, v) ∧ halfLookup m.edges m.verts.length (keyify u v) = some mu ∧ x = (u, mu) ∧ y = (mu, v)) ∨
+      (∃ u v w mu mw, IsSucc m (u, v) (v, w) ∧ halfLookup m.edges m.verts.length (keyify u v) = some mu ∧
+        halfLookup m.edges m.verts.length (keyify v w) = some mw ∧ x = (mu, v) ∧ y = (v, mw))) ∧
+    (∀ s t mu mt, Relation.ReflTransGen (IsSucc m) s t →
+        halfLookup m.edges m.verts.length (keyify s.1 s.2) = some mu →
+        halfLookup m.edges m.verts.length (keyify t.1 t.2) = some mt →
+        Relation.ReflTransGen (IsSucc m') (s.1, mu) (t.1, mt)) ∧
+    (∀ x y s t, Relation.ReflTransGen (IsSucc m') x y → HalfOfBorder m x s → HalfOfBorder m y t →
+        Relation.ReflTransGen (IsSucc m) s t) := by
+  have hb : BorderHalves m m' := by
+    rcases hcase with h | ⟨ho, hS, h⟩
+    · exact q3_borderHalves m m' (quads3_tri m m' h3 h) hes
+    · simp only [sub6, iterM_one, bind, Except.bind] at h
+      cases h1 : quads3 m with
+      | error e => simp [h1] at h
+      | ok m1 =>
+        simp only [h1] at h
+        exact sub6_borderHalves m m1 m' (quads3_tri m m1 h3 h1) h hes ho hS
+  exact ⟨hb.1, fun x s s' h1 h2 => side_unique m hes x s s' h1 h2,
+    fun x y hs => gen_succ_cases m m' hb hes x y hs,
+    fun s t mu mt hw hl hlt => gen_loop_walk_lift m m' hb hes s t hw mu mt hl hlt,
+    fun x y s t hw hs ht => gen_loop_walk_project m m' hb hes x y hw s t hs ht⟩
+
 /-- the same three facts on the body translated from the source -/
 theorem quads3_source (m m' : Raw) (h3 : ∀ f ∈ m.faces, f.length = 3) (hes : EdgesSorted m) (ho : OrientedSides m)
     (h : C13Src.quads3 m = .ok m') : OrientedSides m' ∧ CompPres m m' := by
@@ -358,6 +426,7 @@ example : C13Src.splitDoubleBoundary ⟨[(0,0,0),(1,0,0),(0,1,0)], [(0,1)], [[0,
 example : WF nonRegularWitness ∧ ∃ m', triangulate nonRegularWitness = .ok m' ∧ m'.faces.length = 6 := ⟨by unfold WF; decide, _, rfl, by decide⟩
 example : (∀ f ∈ witnessMesh.faces, f.length = 3) ∧ EdgesSorted witnessMesh ∧ OrientedSides witnessMesh ∧
     ∃ m', quads3 witnessMesh = .ok m' ∧ (dirSides m').length = 24 ∧ OrientedSides m' := ⟨by decide, by decide, by decide, _, rfl, by decide, by decide⟩
+example : SharesAtMostOne witnessMesh := by decide
 -- 1→6 on the two-triangle witness: the criterion of `manifold_preserved_sub6_partial` holds, the result is oriented
 example : ∃ m', sub6 witnessMesh 1 = .ok m' ∧ (dirSides m').length = 36 ∧ OrientedSides m' := ⟨_, rfl, by decide, by decide⟩
 -- the quad cut on a regular complex: the hypotheses of `manifold_preserved_quad_cut` are satisfiable
